@@ -1,4 +1,4 @@
-FIX_COMMITS = ['056fe00 (C14)', '194b898 (C18)', 'e5d1f9f (C05 sweep tie-break)', 'c0a262c (C10)', '7c606c6 (C20)', 'cbc693c (C05/C06 BP-OSD)', 'a832f8b (C06 XCube)', 'a7ca295 (C05 MBP)', '0d33a68 (C12)']
+FIX_COMMITS = ['056fe00 (C14)', '194b898 (C18)', 'e5d1f9f (C05 sweep tie-break)', 'c0a262c (C10)', '7c606c6 (C20)', 'cbc693c (C05/C06 BP-OSD)', 'a832f8b (C06 XCube)', 'a7ca295 (C05 MBP)', '0d33a68 (C12)', '7651b61 (C13)']
 CHECKS = {
  'C14': dict(category='proof',
    text='For all (n_nodes, n_cores, n_inputs, trials, job_idx) - no bound - the body of run_parallel is executed symbolically and 10 '
@@ -110,5 +110,13 @@ CHECKS['C12'] = dict(category='other',
         'stated scenario).',
    note='Assumed: the POSIX model (truncate on open-for-write, prefix-closed writes, atomic replace, durable close). Byte-level torn states exist only through this model. Level "other".',
    technique='crash-invariant over an assumed effect model on the AST; z3 inductive invariant for the trial loop; kill-at-every-effect replay')
+CHECKS['C13'] = dict(category='proof',
+   text='Registry: every key of the CODES / DECODERS / ERROR_MODELS dict literals equals the name of the class bound to it (AST with import-alias resolution; complete for the literals). '
+        'Round trips: StabilizerCode.__init__/params and PauliErrorModel.__init__/params are executed symbolically - cls(**obj.params) stores the same fields for every way of passing sizes; '
+        'for each decoder every params key is a constructor parameter stored unmodified and every optional constructor parameter is recorded. Expansion: the case table of '
+        '_parse_parameters_range, and one generic element of the itertools.product loops of expand_input_ranges / get_simulations carries exactly its four components (decoder built for '
+        'exactly that code, model and rate); list of ranges = concatenation. Random specifications and every registered name through the real functions as bounded cross-check.',
+   note='Assumed: itertools.product enumerates the Cartesian product exactly once each (the "none dropped, none duplicated" part rests on it plus the one-run-per-element obligation).',
+   technique='AST registry check; symbolic execution of constructors/params; generic-iteration rule for the product loops; run-time contracts')
 _PENDING = 'check under construction in this session (contract-based check planned in DESIGN.md section 3); not claimed until its command exists'
 NOT_APPLICABLE = {p: _PENDING for p in ['C%02d' % i for i in range(1, 21)]}
